@@ -754,25 +754,53 @@ E_LAW = {"flow_rate_out": 1, "flow_rate_in": -1, "viscosity_out": 1,
 
 
 def unit_dimensions(repo):
-    """{feature: length exponent} from the unit assertions of load_mtext"""
+    """{feature: length exponent} from the unit sanity checks of load_mtext
+    (if/elif chain of assertions or a module-level {feature: unit} table
+    that the function consults)"""
     f = repo.func(LOAD, "load_mtext")
-    out = {}
+    units = {}
     for n in walk(f):
         if isinstance(n, ast.If) and isinstance(n.test, ast.Compare) \
-                and len(n.test.comparators) == 1 and const_str(
-                    n.test.comparators[0]) and isinstance(
+                and len(n.test.comparators) == 1 and isinstance(
                     n.test.ops[0], ast.Eq):
-            feat = const_str(n.test.comparators[0])
+            feat = const_str(n.test.comparators[0]) or const_str(n.test.left)
+            if feat is None:
+                continue
             for s in n.body:
                 if isinstance(s, ast.Assert) and isinstance(
-                        s.test, ast.Compare) and const_str(
-                        s.test.comparators[0]) is not None:
+                        s.test, ast.Compare) and isinstance(
+                        s.test.ops[0], ast.Eq):
                     u = const_str(s.test.comparators[0])
-                    mm = re.fullmatch(r"um\^(\d)", u)
-                    if mm:
-                        out[feat] = int(mm.group(1))
-                    elif u == "":
-                        out[feat] = 0
+                    if u is None:
+                        u = const_str(s.test.left)
+                    if u is not None:
+                        units[feat] = u
+    if not units:
+        # table form: assert un == TABLE[ft]
+        for n in walk(f):
+            if isinstance(n, ast.Name) and isinstance(n.ctx, ast.Load):
+                tab = repo.module_assign(LOAD, n.id, missing_ok=True)
+                if isinstance(tab, ast.Dict) and all(
+                        const_str(k) is not None and const_str(v) is not None
+                        for k, v in zip(tab.keys, tab.values)) and tab.keys:
+                    cand = {const_str(k): const_str(v)
+                            for k, v in zip(tab.keys, tab.values)}
+                    used = any(
+                        isinstance(a_, ast.Assert) and n.id in names_in(a_)
+                        and isinstance(a_.test, ast.Compare) and isinstance(
+                            a_.test.ops[0], ast.Eq)
+                        and any(isinstance(x, ast.Subscript) and txt(
+                            x.value) == n.id for x in ast.walk(a_.test))
+                        for a_ in walk(f))
+                    if used and {"area_um", "volume"} <= set(cand):
+                        units = cand
+    out = {}
+    for feat, u in units.items():
+        mm = re.fullmatch(r"um\^(\d)", u)
+        if mm:
+            out[feat] = int(mm.group(1))
+        elif u == "":
+            out[feat] = 0
     return out
 
 
@@ -792,6 +820,29 @@ def mini(e, env):
         return not mini(e.operand, env)
     if isinstance(e, ast.Call) and call_name(e) == "isinstance":
         return False
+    if isinstance(e, (ast.Tuple, ast.List)):
+        return [mini(x, env) for x in e.elts]
+    if isinstance(e, ast.Call) and call_name(e) in ("any", "all") and len(
+            e.args) == 1 and not e.keywords:
+        arg = e.args[0]
+        if isinstance(arg, (ast.GeneratorExp, ast.ListComp)) and len(
+                arg.generators) == 1 and isinstance(
+                arg.generators[0].target, ast.Name):
+            g = arg.generators[0]
+            seq = mini(g.iter, env)
+            if not isinstance(seq, list):
+                raise AnalysisError(f"guard `{short(e, 40)}`: iterable")
+            vals = []
+            for item in seq:
+                env2 = dict(env)
+                env2[g.target.id] = item
+                if all(mini(c, env2) for c in g.ifs):
+                    vals.append(mini(arg.elt, env2))
+        else:
+            vals = mini(arg, env)
+            if not isinstance(vals, list):
+                raise AnalysisError(f"guard `{short(e, 40)}`: argument")
+        return any(vals) if call_name(e) == "any" else all(vals)
     if isinstance(e, ast.Compare) and len(e.ops) == 1:
         a = mini(e.left, env)
         b = mini(e.comparators[0], env)
@@ -808,9 +859,8 @@ def mini(e, env):
 
 
 def inline_names(e, func, depth=0):
-    """replace names that have a single boolean-expression definition"""
-    import copy as _copy
-
+    """replace names that have a single boolean-expression / literal
+    tuple definition"""
     class T(ast.NodeTransformer):
         def visit_Name(self, node):
             if isinstance(node.ctx, ast.Load):
@@ -818,13 +868,17 @@ def inline_names(e, func, depth=0):
                       and len(n.targets) == 1 and isinstance(
                           n.targets[0], ast.Name)
                       and n.targets[0].id == node.id]
-                if len(ds) == 1 and isinstance(
-                        ds[0].value, (ast.BoolOp, ast.Compare)) \
-                        and depth < 3:
-                    return inline_names(_copy.deepcopy(ds[0].value), func,
+                if len(ds) == 1 and depth < 4 and (isinstance(
+                        ds[0].value, (ast.BoolOp, ast.Compare, ast.Tuple,
+                                      ast.List)) or (
+                        isinstance(ds[0].value, ast.UnaryOp) and isinstance(
+                            ds[0].value.op, ast.Not)) or (
+                        isinstance(ds[0].value, ast.Call) and call_name(
+                            ds[0].value) in ("any", "all"))):
+                    return inline_names(_fresh(ds[0].value), func,
                                         depth + 1)
             return node
-    return T().visit(_copy.deepcopy(e))
+    return T().visit(_fresh(e))
 
 
 def law_of(ctx, repo, fname, first_param_feature, want):
@@ -1105,24 +1159,31 @@ def r54(ctx, repo, m):
            "deformation" if ok else
            f"`{short(a, 50)}` does not subtract the offset from the "
            "deformation", node=a, label="offset subtracted")
-    # abscissa data = x data variable defined from area_um / volume
-    xdefs = [s for s in walk(f) if isinstance(s, ast.Assign)
-             and isinstance(s.targets[0], ast.Name)
-             and len(names_in(s.value) & {"area_um", "volume"}) == 1]
-    xnames = {s.targets[0].id for s in xdefs}
-    if len(xnames) != 1:
+    # abscissa data: the variable handed to the correction must originate
+    # from the input named like the LUT's first column feature (executed
+    # symbolically for both kinds of LUT)
+    da = kwarg(c, "data_absc", 2)
+    if not isinstance(da, ast.Name):
         raise AnalysisError("get_emodulus: abscissa data variable")
-    xv = xnames.pop()
-    # each definition pairs the LUT feature with the right input
-    for s in xdefs:
-        test = s.parent.test if isinstance(s.parent, ast.If) else None
-        want = (names_in(s.value) & {"area_um", "volume"}).pop()
-        ok = test is not None and f"{m.featx} == '{want}'" in txt(test)
+    xv = da.id
+    m.xv = xv
+    origins = abscissa_origin(m, px, xv)
+    for want in ("area_um", "volume"):
+        env = origins[want]
+        if env is None:
+            raise AnalysisError(f"get_emodulus: a LUT over '{want}' is "
+                                "rejected")
+        got = env.get(xv)
+        ok = got == ("input", want)
         ctx.ob("R5.4", ok,
                f"a LUT over '{want}' interpolates at the `{want}` input"
-               if ok else f"`{short(s, 40)}` is not selected by the LUT's "
-               f"first column feature being '{want}'", node=s,
+               if ok else f"for a LUT over '{want}' the abscissa `{xv}` is "
+               f"taken from {got}", node=c,
                label=f"abscissa input {want}")
+    xdefs = [s_ for s_ in walk(f) if isinstance(s_, ast.Assign) and any(
+        isinstance(t, ast.Name) and t.id == xv for t in s_.targets)]
+    if not xdefs:
+        raise AnalysisError("get_emodulus: abscissa data variable")
     kws = {kw.arg: txt(kw.value) for kw in c.keywords}
     want = {"feat_corr": m.featy, "feat_absc": m.featx, "data_absc": xv,
             "px_um": "px_um"}
@@ -1235,7 +1296,8 @@ def r54(ctx, repo, m):
                f"{fn}: pixel scale `{short(sc[0].value, 30)}` does not have "
                f"the dimension px_um^-{dims[absc]} of {absc}",
                node=sc[0], label=f"{fn} pixel scale")
-        exps = [c2 for c2 in find_calls(cf, name="np.exp")]
+        cfu = unroll_tables(repo, PX, cf)
+        exps = [c2 for c2 in find_calls(cfu, name="np.exp")]
         bad = None
         for e in exps:
             def res2(node):
@@ -1249,14 +1311,10 @@ def r54(ctx, repo, m):
         ctx.ob("R5.4", ok,
                f"{fn}: every exponential decays in {p[0]} * {scn}" if ok
                else f"{fn}: `{short(bad or cf, 40)}` is not a decay in "
-               f"{p[0]} * {scn}", node=bad or cf,
+               f"{p[0]} * {scn}", node=cf,
                label=f"{fn} decays")
         rets = [r for r in walk(cf) if isinstance(r, ast.Return)]
-        dl = rets[0].value if rets else None
-        if isinstance(dl, ast.Name):
-            dd = [n for n in walk(cf) if isinstance(n, ast.Assign)
-                  and txt(n.targets[0]) == dl.id]
-            dl = dd[0].value if len(dd) == 1 else None
+        total = straight_line_value(cfu, fn)
         terms = []
 
         def flat(x):
@@ -1264,18 +1322,232 @@ def r54(ctx, repo, m):
                 flat(x.left)
                 flat(x.right)
             else:
-                terms.append(txt(x))
-        if dl is not None:
-            flat(dl)
-        expn = {txt(n.targets[0]) for n in walk(cf) if isinstance(
-            n, ast.Assign) and find_calls(n, name="np.exp")}
-        ok = dl is not None and expn <= set(terms) and len(terms) == len(
-            expn) + 1
+                terms.append(x)
+        flat(total)
+        consts = [t for t in terms if not find_calls(t, name="np.exp")]
+        decays = [t for t in terms if find_calls(t, name="np.exp")]
+        for t in consts:
+            if not (isinstance(t, ast.Constant) and isinstance(
+                    t.value, (int, float))):
+                raise AnalysisError(f"{fn}: term `{short(t, 30)}` of the "
+                                    "offset not understood")
+        for t in decays:
+            if not (isinstance(t, ast.BinOp) and isinstance(
+                    t.op, ast.Mult) and len(find_calls(
+                        t, name="np.exp")) == 1):
+                raise AnalysisError(f"{fn}: term `{short(t, 40)}` of the "
+                                    "offset not understood")
+        ok = len(consts) == 1 and len(decays) == len(exps) and len(
+            {txt(t) for t in decays}) == len(decays)
         ctx.ob("R5.4", ok, f"{fn}: the offset is the sum of the constant "
-               "and all exponential terms" if ok else
-               f"{fn}: returned offset `{' + '.join(terms)}` does not sum "
-               f"the constant and the terms {sorted(expn)}",
-               node=rets[0] if rets else cf, label=f"{fn} sum")
+               f"and all {len(exps)} exponential terms" if ok else
+               f"{fn}: the returned offset sums {len(consts)} constant(s) "
+               f"and {len(decays)} exponential term(s), the function "
+               f"computes {len(exps)} exponentials – a term is dropped or "
+               "counted twice", node=rets[0] if rets else cf,
+               label=f"{fn} sum")
+
+
+# ----------------------------------------------------------------------
+class _Subst(ast.NodeTransformer):
+    def __init__(self, env):
+        self.env = env
+
+    def visit_Name(self, node):
+        if isinstance(node.ctx, ast.Load) and node.id in self.env:
+            return _fresh(self.env[node.id])
+        return node
+
+
+def _literal_table(repo, rel, e):
+    """rows of a literal tuple/list table (given directly or as a
+    module-level constant), else None"""
+    if isinstance(e, ast.Name):
+        e = repo.module_assign(rel, e.id, missing_ok=True)
+    if isinstance(e, (ast.Tuple, ast.List)) and e.elts and all(
+            isinstance(r, (ast.Tuple, ast.List, ast.Constant, ast.UnaryOp))
+            for r in e.elts):
+        return list(e.elts)
+    return None
+
+
+def _bind_row(target, row, what):
+    if isinstance(target, ast.Name):
+        return {target.id: row}
+    if isinstance(target, (ast.Tuple, ast.List)) and isinstance(
+            row, (ast.Tuple, ast.List)) and len(target.elts) == len(
+            row.elts) and all(isinstance(t, ast.Name) for t in target.elts):
+        return {t.id: v for t, v in zip(target.elts, row.elts)}
+    raise AnalysisError(f"{what}: loop target does not match the table rows")
+
+
+def unroll_tables(repo, rel, func):
+    """copy of func in which `for .. in <literal table>` loops and
+    `sum(<comprehension over a literal table>)` are written out"""
+    new = ast.parse(txt(func)).body[0]
+    what = func.name
+
+    class U(ast.NodeTransformer):
+        def visit_For(self, node):
+            self.generic_visit(node)
+            rows = _literal_table(repo, rel, node.iter)
+            if rows is None or node.orelse:
+                return node
+            out = []
+            for r in rows:
+                env = _bind_row(node.target, r, what)
+                for st in node.body:
+                    out.append(_Subst(env).visit(
+                        ast.parse(txt(st)).body[0]))
+            return out
+
+        def visit_Call(self, node):
+            self.generic_visit(node)
+            if call_name(node) in ("sum", "np.sum") and node.args and \
+                    isinstance(node.args[0], (ast.GeneratorExp,
+                                              ast.ListComp)) \
+                    and len(node.args[0].generators) == 1 \
+                    and not node.args[0].generators[0].ifs:
+                g = node.args[0].generators[0]
+                rows = _literal_table(repo, rel, g.iter)
+                if rows is None:
+                    return node
+                terms = [_Subst(_bind_row(g.target, r, what)).visit(
+                    _fresh(node.args[0].elt)) for r in rows]
+                if len(node.args) > 1:
+                    terms.insert(0, node.args[1])
+                acc = terms[0]
+                for t in terms[1:]:
+                    acc = ast.BinOp(left=acc, op=ast.Add(), right=t)
+                return acc
+            return node
+    new = ast.fix_missing_locations(U().visit(new))
+    new = ast.parse(txt(new)).body[0]
+    from ..core import link
+    link(new)
+    return new
+
+
+def straight_line_value(func, what):
+    """expression returned by a function made of plain assignments, with
+    every local substituted"""
+    env = {}
+    body = [s for s in func.body if not (
+        isinstance(s, ast.Expr) and isinstance(s.value, ast.Constant))]
+    for st in body:
+        if isinstance(st, ast.Assign) and len(st.targets) == 1 \
+                and isinstance(st.targets[0], ast.Name):
+            env[st.targets[0].id] = _Subst(env).visit(_fresh(st.value))
+        elif isinstance(st, ast.AugAssign) and isinstance(
+                st.target, ast.Name) and st.target.id in env:
+            env[st.target.id] = ast.BinOp(
+                left=env[st.target.id], op=st.op,
+                right=_Subst(env).visit(_fresh(st.value)))
+        elif isinstance(st, ast.Return) and st.value is not None \
+                and st is body[-1]:
+            return _Subst(env).visit(_fresh(st.value))
+        else:
+            raise AnalysisError(f"{what}: statement `{short(st, 40)}` not "
+                                "understood")
+    raise AnalysisError(f"{what}: no final return")
+
+
+def abscissa_origin(m, upto, xv_name):
+    """for each abscissa feature of a LUT: which input of get_emodulus
+    reaches the variable handed to the pixelation correction – by executing
+    the statements before the correction on symbolic inputs"""
+    f = m.f
+    start = [i for i, s in enumerate(f.body) if isinstance(s, ast.Assign)
+             and isinstance(s.targets[0], ast.Tuple)
+             and "column features" in txt(s.value)]
+    stop = [i for i, s in enumerate(f.body) if s is upto]
+    split = [i for i, s in enumerate(f.body) if s is m.split]
+    if len(start) != 1 or len(stop) != 1 or len(split) != 1:
+        raise AnalysisError("get_emodulus: feature selection block")
+    # (the inputs are selected before the route split; a correction that
+    # was moved behind it is reported by the ordering obligation)
+    stop = [min(stop[0], split[0])]
+    stmts = f.body[start[0] + 1:stop[0]]
+    PASS = {"np.array", "np.asarray", "np.atleast_1d", "np.ascontiguousarray",
+            "numpy.array", "np.copy"}
+
+    class Raises(Exception):
+        pass
+
+    def val(e, env):
+        if isinstance(e, ast.Constant):
+            return e.value
+        if isinstance(e, ast.Name):
+            return env.get(e.id, ("opaque", e.id))
+        if isinstance(e, (ast.Tuple, ast.List)):
+            return tuple(val(x, env) for x in e.elts)
+        if isinstance(e, ast.IfExp):
+            try:
+                return val(e.body if test(e.test, env) else e.orelse, env)
+            except AnalysisError:
+                a_, b_ = val(e.body, env), val(e.orelse, env)
+                return a_ if a_ == b_ else ("opaque", short(e, 30))
+        if isinstance(e, ast.Call) and call_name(e) in PASS and e.args:
+            return val(e.args[0], env)
+        if isinstance(e, ast.Call) and last_attr(e) in (
+                "copy", "astype") and isinstance(e.func, ast.Attribute):
+            return val(e.func.value, env)
+        if isinstance(e, ast.Subscript) and isinstance(
+                e.slice, ast.Constant) and isinstance(
+                val(e.value, env), tuple):
+            return val(e.value, env)[e.slice.value]
+        return ("opaque", short(e, 30))
+
+    def test(e, env):
+        senv = {k: v for k, v in env.items() if isinstance(v, str)}
+        return seval(e, senv, "get_emodulus (feature selection)")
+
+    def run(body, env):
+        for st in body:
+            if isinstance(st, ast.If):
+                try:
+                    t_ = test(st.test, env)
+                except AnalysisError:
+                    if names_in(st) & {xv_name}:
+                        raise
+                    continue
+                run(st.body if t_ else st.orelse, env)
+            elif isinstance(st, ast.Raise):
+                raise Raises()
+            elif isinstance(st, ast.Assign) and len(st.targets) == 1:
+                t = st.targets[0]
+                v = val(st.value, env)
+                if isinstance(t, ast.Name):
+                    env[t.id] = v
+                elif isinstance(t, (ast.Tuple, ast.List)) and isinstance(
+                        v, tuple) and len(v) == len(t.elts):
+                    for x, y in zip(t.elts, v):
+                        if isinstance(x, ast.Name):
+                            env[x.id] = y
+                elif isinstance(t, (ast.Tuple, ast.List)):
+                    for x in t.elts:
+                        if isinstance(x, ast.Name):
+                            env[x.id] = ("opaque", x.id)
+            elif isinstance(st, (ast.Assert, ast.Expr, ast.Pass,
+                                 ast.AugAssign)):
+                continue
+            else:
+                raise AnalysisError("get_emodulus: statement "
+                                    f"`{short(st, 40)}` in the feature "
+                                    "selection not understood")
+    out = {}
+    for feat in ("area_um", "volume"):
+        env = {m.featx: feat, m.featy: "deform",
+               "area_um": ("input", "area_um"), "volume": ("input",
+                                                            "volume"),
+               "deform": ("input", "deform")}
+        try:
+            run(stmts, env)
+        except Raises:
+            out[feat] = None
+            continue
+        out[feat] = env
+    return out
 
 
 # ----------------------------------------------------------------------
@@ -1315,10 +1587,7 @@ def r55(ctx, repo, m, x4):
         xd, yd = [txt(e) for e in xi.elts]
         # data roles
         if which == "B":
-            wx = [s.targets[0].id for s in walk(f) if isinstance(
-                s, ast.Assign) and isinstance(s.targets[0], ast.Name)
-                and len(names_in(s.value) & {"area_um", "volume"}) == 1]
-            okx = xd in wx and yd == "deform"
+            okx = xd == getattr(m, "xv", None) and yd == "deform"
         else:
             ydef = [s for s in m.routeA if isinstance(s, ast.Assign)
                     and txt(s.targets[0]) == yd]
@@ -2171,4 +2440,122 @@ TWINS = [
        '        "No rule for feature \'{}\' with abscissa '
        '".format(feat_corr)\n'
        '        + "\'{}\'!".format(feat_absc))\n')]),
+    ('refactoring 2: abscissa input picked by a conditional expression', EM,
+     [('    if featx == "area_um" and featy == "deform":\n'
+       '        assert volume is None, "Don\'t define area_um and volume at '
+       'same time!"\n'
+       '        datax = np.array(area_um, dtype=float, copy=copy)\n'
+       '    elif featx == "volume" and featy == "deform":\n'
+       '        assert area_um is None, "Don\'t define area_um and volume at '
+       'same time!"\n'
+       '        datax = np.array(volume, dtype=float, copy=copy)\n'
+       '    else:\n'
+       '        raise KeyError("No recipe for \'{}\' and '
+       '\'{}\'!".format(featx, featy))\n',
+       '    if not ((featx == "area_um" or featx == "volume") and featy == '
+       '"deform"):\n'
+       '        raise KeyError("No recipe for \'{}\' and '
+       '\'{}\'!".format(featx, featy))\n'
+       '    # `datax_in` is the abscissa of the LUT, `datax_other` must not '
+       'be given\n'
+       '    datax_in, datax_other = ((area_um, volume) if featx == "area_um"\n'
+       '                             else (volume, area_um))\n'
+       '    assert datax_other is None, "Don\'t define area_um and volume at '
+       'same time!"\n'
+       '    datax = np.array(datax_in, dtype=float, copy=copy)\n')]),
+    ('refactoring 2: has_nones via any() over a tuple, nested ifs merged', SCALE,
+     [('    if viscosity_in is not None:\n'
+       '        if isinstance(viscosity_in, np.ndarray):\n'
+       '            raise ValueError("`viscosity_in` must not be an array!")\n'
+       '\n'
+       '    has_nones = (flow_rate_in is None\n'
+       '                 or flow_rate_out is None\n'
+       '                 or viscosity_in is None\n'
+       '                 or viscosity_out is None\n'
+       '                 or channel_width_in is None\n'
+       '                 or channel_width_out is None\n'
+       '                 )\n',
+       '    if viscosity_in is not None and isinstance(viscosity_in, '
+       'np.ndarray):\n'
+       '        raise ValueError("`viscosity_in` must not be an array!")\n'
+       '\n'
+       '    scale_args = (flow_rate_in, flow_rate_out,\n'
+       '                  viscosity_in, viscosity_out,\n'
+       '                  channel_width_in, channel_width_out)\n'
+       '    has_nones = any(arg is None for arg in scale_args)\n')]),
+    ('refactoring 2: viscosity dispatcher passes keywords explicitly', VISC,
+     [('        kwargs = {"medium": medium,\n'
+       '                  "temperature": temperature,\n'
+       '                  "flow_rate": flow_rate,\n'
+       '                  "channel_width": channel_width}\n'
+       '\n',
+       ''),
+      ('            eta = get_viscosity_mc_pbs_herold_2017(**kwargs)\n'
+       '        elif model == "buyukurganci-2022":\n'
+       '            eta = get_viscosity_mc_pbs_buyukurganci_2022(**kwargs)\n',
+       '            eta = get_viscosity_mc_pbs_herold_2017(\n'
+       '                medium=medium,\n'
+       '                temperature=temperature,\n'
+       '                flow_rate=flow_rate,\n'
+       '                channel_width=channel_width)\n'
+       '        elif model == "buyukurganci-2022":\n'
+       '            eta = get_viscosity_mc_pbs_buyukurganci_2022(\n'
+       '                medium=medium,\n'
+       '                temperature=temperature,\n'
+       '                flow_rate=flow_rate,\n'
+       '                channel_width=channel_width)\n')]),
+    ('refactoring 2: decay terms looped over module-level tables', PX,
+     [('def corr_deform_with_area_um(area_um, px_um=0.34):\n',
+       '#: (amplitude, decay constant [µm²]) of the triple-exponential decay\n'
+       '#: used in :func:`corr_deform_with_area_um`\n'
+       '_DECAYS_AREA_UM = ((0.020, 7.1), (0.010, 38.6), (0.005, 296))\n'
+       '\n'
+       '#: (amplitude, decay constant [µm³]) of the triple-exponential decay\n'
+       '#: used in :func:`corr_deform_with_volume`\n'
+       '_DECAYS_VOLUME = ((0.0172, 40), (0.0070, 450), (0.0032, 6040))\n'
+       '\n'
+       '\n'
+       'def corr_deform_with_area_um(area_um, px_um=0.34):\n'),
+      ('    exp1 = 0.020 * np.exp(-area_um * pxscale / 7.1)\n'
+       '    exp2 = 0.010 * np.exp(-area_um * pxscale / 38.6)\n'
+       '    exp3 = 0.005 * np.exp(-area_um * pxscale / 296)\n'
+       '    delta = offs + exp1 + exp2 + exp3\n',
+       '    delta = offs\n'
+       '    for ampl, decay in _DECAYS_AREA_UM:\n'
+       '        delta = delta + ampl * np.exp(-area_um * pxscale / decay)\n'),
+      ('    exp1 = 0.0172 * np.exp(-volume * pxscalev / 40)\n'
+       '    exp2 = 0.0070 * np.exp(-volume * pxscalev / 450)\n'
+       '    exp3 = 0.0032 * np.exp(-volume * pxscalev / 6040)\n'
+       '    delta = offs + exp1 + exp2 + exp3\n',
+       '    delta = offs\n'
+       '    for ampl, decay in _DECAYS_VOLUME:\n'
+       '        delta = delta + ampl * np.exp(-volume * pxscalev / decay)\n')]),
+    ('refactoring 2: expected units in a module-level table', LOAD,
+     [('\n@functools.lru_cache()\n',
+       '#: Units expected in the column header of a text file for each '
+       'feature\n'
+       '#: (sanity checks in :func:`load_mtext`)\n'
+       '_EXPECTED_UNITS = {\n'
+       '    "deform": "",\n'
+       '    "area_um": "um^2",\n'
+       '    "emodulus": "kPa",\n'
+       '    "volume": "um^3",\n'
+       '}\n'
+       '\n'
+       '\n'
+       '@functools.lru_cache()\n'),
+      ('        if ft == "deform":\n'
+       '            assert un == ""\n'
+       '        elif ft == "area_um":\n'
+       '            assert un == "um^2"\n'
+       '        elif ft == "emodulus":\n'
+       '            assert un == "kPa"\n'
+       '        elif ft == "volume":\n'
+       '            assert un == "um^3"\n'
+       '        else:\n'
+       '            assert False, "Please add sanity check for '
+       '{}!".format(ft)\n',
+       '        assert ft in _EXPECTED_UNITS, \\\n'
+       '            "Please add sanity check for {}!".format(ft)\n'
+       '        assert un == _EXPECTED_UNITS[ft]\n')]),
 ]
